@@ -16,7 +16,7 @@ SET_DEFS = [
 ]
 
 
-def s12_intersect(ctx):
+def s12_intersect(ctx, drv=None, name="S12-intersect"):
     """exhaustive tie of determine_intersect (finite domain)"""
     import_fractopo()
     from shapely.geometry import MultiPoint, Point
@@ -24,9 +24,10 @@ def s12_intersect(ctx):
 
     from fractopo.analysis.relationships import determine_intersect
 
-    res = StreamResult("S12-intersect", rule="ALL (node class in X,Y,I) x l1 x l2 x p1 = 24 combinations of determine_intersect (exhaustive)")
+    drv = drv or ctx.driver
+    res = StreamResult(name, rule=("REGENERATED determine_intersect (Lean, compiled into gen_c12): " if name != "S12-intersect" else "") + "ALL (node class in X,Y,I) x l1 x l2 x p1 = 24 combinations of determine_intersect (exhaustive)")
     combos = list(itertools.product(["X", "Y", "I"], [True, False], [True, False], [True, False]))
-    resps = ctx.driver.batch([f"intersect cls={c} l1={int(a)} l2={int(b)} p1={int(p)}" for c, a, b, p in combos])
+    resps = drv.batch([f"intersect cls={c} l1={int(a)} l2={int(b)} p1={int(p)}" for c, a, b, p in combos])
     node = Point(0, 0)
     for (c, l1, l2, p1), resp in zip(combos, resps):
         res.evaluations += 1
@@ -39,7 +40,7 @@ def s12_intersect(ctx):
             got = "error"
         spec = parse_resp(resp)["sets"]
         if got != spec:
-            res.disagreements.append(Disagreement("S12-intersect", {"stream": "S12-intersect", "cls": c, "l1": l1, "l2": l2, "p1": p1}, spec, got, None, "determine_intersect differs from the model"))
+            res.disagreements.append(Disagreement(name, {"stream": "S12-intersect", "cls": c, "l1": l1, "l2": l2, "p1": p1}, spec, got, None, "determine_intersect differs from the model"))
     res.samples = [{"cls": "Y", "l1": True, "l2": True, "p1": False, "model": "BA"}]
     return res
 
@@ -116,13 +117,24 @@ def s12_relations(ctx):
     return res
 
 
-STREAMS = [s12_intersect, s12_relations]
+def s12_generated(ctx):
+    if ctx.gen is None:
+        r = StreamResult("S12-generated", note="gen_c12 not built (a generated module is broken): skipped")
+        r.skipped["generated_driver_not_built"] = 1
+        return r
+    return s12_intersect(ctx, ctx.gen, "S12-generated")
+
+
+STREAMS = [s12_intersect, s12_relations, s12_generated]
 
 
 def replay(ctx, stream, case):
     import_fractopo()
     if stream == "S12-intersect":
-        r = s12_intersect(ctx)
+        r = s12_intersect(ctx) if not (isinstance(case, dict) and case.get("generated")) else s12_generated(ctx)
+        return r.disagreements[0] if r.disagreements else None
+    if stream == "S12-generated":
+        r = s12_generated(ctx)
         return r.disagreements[0] if r.disagreements else None
     from shapely.geometry import Polygon
 
